@@ -287,6 +287,20 @@ func (fr *Frame) preludeCall(st *State, name string, fn *ssa.Function, args []Va
 			return Val{T: ok}, true
 		}
 		return Val{T: val}, true
+	case "__nextDecoded", "__nextDecodeOK":
+		ta := fn.TypeArgs()
+		if len(ta) != 1 {
+			ex.unsupported("nextDecoded[T] needs one type argument")
+		}
+		ok, val := ex.streamDecodeTerms(st, unboxArg(args[0].T), ta[0])
+		if name == "__nextDecodeOK" {
+			return Val{T: ok}, true
+		}
+		return Val{T: val}, true
+	case "__callNOf":
+		return Val{T: ex.get(st, "CallN_"+sanitize(constString(cc.Args[0])), SInt)}, true
+	case "__callRetOf":
+		return Val{T: Select(ex.get(st, "CallRet_"+sanitize(constString(cc.Args[0])), ArraySort(SInt, SBool)), args[1].T)}, true
 	case "__callN":
 		return Val{T: ex.get(st, "CallN", SInt)}, true
 	case "__callIs":
@@ -471,15 +485,19 @@ func (fr *Frame) applyContract(st *State, fn *ssa.Function, c *LoadedContract, a
 	}
 	if c.C.LogCalls && ex.ghost == 0 {
 		// ghost call log: which contracted handler ran and what it returned
-		n := ex.get(st, "CallN", SInt)
+		sfx := ""
+		if c.C.LogName != "" {
+			sfx = "_" + sanitize(c.C.LogName)
+		}
+		n := ex.get(st, "CallN"+sfx, SInt)
 		id := ex.w.spawnID("call:" + ex.w.funcKey(fn))
-		ex.set(st, "CallFn", Store(ex.get(st, "CallFn", ArraySort(SInt, SInt)), n, IntLit(int64(id))))
+		ex.set(st, "CallFn"+sfx, Store(ex.get(st, "CallFn"+sfx, ArraySort(SInt, SInt)), n, IntLit(int64(id))))
 		ret := TFalse
 		if len(results) > 0 && results[0].T != nil && results[0].T.Sort == SBool {
 			ret = results[0].T
 		}
-		ex.set(st, "CallRet", Store(ex.get(st, "CallRet", ArraySort(SInt, SBool)), n, ret))
-		ex.set(st, "CallN", Add(n, IntLit(1)))
+		ex.set(st, "CallRet"+sfx, Store(ex.get(st, "CallRet"+sfx, ArraySort(SInt, SBool)), n, ret))
+		ex.set(st, "CallN"+sfx, Add(n, IntLit(1)))
 	}
 	switch len(results) {
 	case 0:
